@@ -17,7 +17,7 @@ import (
 // Globals expected: __src, __flags, __S (strings), __starts (array of numbers), __mode (string), __iter (bool),
 // __repl (array of replacement templates), __limits (array of split limits), __opStart (number).
 const driverSrc = `
-var __calls = 0;
+var __calls = 0, __gets = 0;
 var __origExec = RegExp.prototype.exec;
 function __ename(e) {
 	try { if (e !== null && typeof e === "object" && typeof e.constructor === "function") return "" + e.constructor.name; } catch (x) {}
@@ -33,21 +33,21 @@ function __deoptProto(mode) {
 		["flags", "global", "sticky", "unicode", "ignoreCase", "multiline", "dotAll"].forEach(function (k) {
 			var d = Object.getOwnPropertyDescriptor(P, k);
 			var g = d.get;
-			Object.defineProperty(P, k, { get: function () { return g.call(this); }, configurable: true, enumerable: false });
+			Object.defineProperty(P, k, { get: function () { __gets++; return g.call(this); }, configurable: true, enumerable: false });
 		});
 	} else if (mode === "proto-flags-getter") {
 		var d = Object.getOwnPropertyDescriptor(P, "flags");
 		var g = d.get;
-		Object.defineProperty(P, "flags", { get: function () { return g.call(this); }, configurable: true, enumerable: false });
+		Object.defineProperty(P, "flags", { get: function () { __gets++; return g.call(this); }, configurable: true, enumerable: false });
 	} else if (mode === "proto-symbols") {
 		[Symbol.replace, Symbol.match, Symbol.split, Symbol.search, Symbol.matchAll].forEach(function (k) {
 			var f = P[k];
-			Object.defineProperty(P, k, { value: function (a, b) { return arguments.length > 1 ? f.call(this, a, b) : f.call(this, a); }, writable: true, configurable: true, enumerable: false });
+			Object.defineProperty(P, k, { value: function (a, b) { __gets++; return arguments.length > 1 ? f.call(this, a, b) : f.call(this, a); }, writable: true, configurable: true, enumerable: false });
 		});
 	} else if (mode === "proto-symbols-assign") {
 		[Symbol.replace, Symbol.match, Symbol.split, Symbol.search, Symbol.matchAll].forEach(function (k) {
 			var f = P[k];
-			P[k] = function (a, b) { return arguments.length > 1 ? f.call(this, a, b) : f.call(this, a); };
+			P[k] = function (a, b) { __gets++; return arguments.length > 1 ? f.call(this, a, b) : f.call(this, a); };
 		});
 	}
 }
@@ -55,14 +55,19 @@ function __adv(S, i) {
 	if (__u && i + 1 < S.length) { var c = S.charCodeAt(i); if (c >= 0xD800 && c <= 0xDBFF) { var d = S.charCodeAt(i + 1); if (d >= 0xDC00 && d <= 0xDFFF) return i + 2; } }
 	return i + 1;
 }
-var __Sub = null;
+var __Sub = null, __base = null;
 function __mk() {
 	var mode = __mode, re;
 	if (mode === "subclass") {
 		if (__Sub === null) __Sub = class Sub extends RegExp {};
 		return new __Sub(__src, __flags);
 	}
-	re = new RegExp(__src, __flags);
+	if (__clone) {
+		if (__base === null) __base = new RegExp(__src, __flags);
+		re = new RegExp(__base);
+	} else {
+		re = new RegExp(__src, __flags);
+	}
 	if (mode === "own-exec-assign") {
 		re.exec = function exec(s) { __calls++; return __origExec.call(this, s); };
 	} else if (mode === "own-exec-define") {
@@ -95,8 +100,8 @@ function __dm(m) {
 function __battery() {
 	var out = [], S = __S;
 	function attempt(name, f) {
-		var c0 = __calls;
-		try { var r = f(); out.push([name, __calls - c0, r]); } catch (e) { out.push([name, __calls - c0, ["throw", __ename(e)]]); }
+		var c0 = __calls, g0 = __gets;
+		try { var r = f(); out.push([name, __calls - c0, r, __gets - g0]); } catch (e) { out.push([name, __calls - c0, ["throw", __ename(e)], __gets - g0]); }
 	}
 	function execLoop(start, useTest) {
 		var re = __mk(); re.lastIndex = start;
@@ -144,7 +149,8 @@ function __battery() {
 			attempt("split", function () { var re = __mk(); re.lastIndex = os; var r = S.split(re, lim); var a = []; for (var i = 0; i < r.length; i++) a.push(r[i]); return [os, lim, a, re.lastIndex]; });
 		})(__limits[i]);
 	}
-	attempt("props", function () { var re = __mk(); return [re.source, re.flags, re.global, re.ignoreCase, re.multiline, re.dotAll, re.unicode, re.sticky, re.lastIndex]; });
+	attempt("source", function () { var re = __mk(); return [re.source, "" + re.toString().length]; });
+	attempt("props", function () { var re = __mk(); return [0, re.flags, re.global, re.ignoreCase, re.multiline, re.dotAll, re.unicode, re.sticky, re.lastIndex]; });
 	return out;
 }
 `
@@ -295,6 +301,7 @@ func (v *val) isInt() (int, bool) {
 type opRec struct {
 	name  string
 	calls int
+	gets  int // calls of user-installed pass-through getters / Symbol.* wrappers (evidence that user code on the prototype is really reached)
 	data  *val
 	text  string // rendered payload
 }
@@ -326,14 +333,15 @@ func (b *batteryResult) dump() string {
 }
 
 type batteryIn struct {
-	src    []uint16
-	flags  string
-	subj   []uint16
-	starts []int
-	repl   [][]uint16
-	limits []int
+	src     []uint16
+	flags   string
+	subj    []uint16
+	starts  []int
+	repl    [][]uint16
+	limits  []int
 	opStart int
-	mode   string
+	mode    string
+	clone   bool // make the objects by new RegExp(base) (shares the compiled pattern) instead of compiling every time
 }
 
 const fuelPerBattery = 3000000
@@ -371,6 +379,10 @@ func runBattery(r *goja.Runtime, in *batteryIn) *batteryResult {
 	r.Set("__iter", hasFlag(in.flags, 'g') || hasFlag(in.flags, 'y'))
 	r.Set("__iterG", hasFlag(in.flags, 'g'))
 	r.Set("__u", hasFlag(in.flags, 'u'))
+	r.Set("__clone", in.clone)
+	r.Set("__base", goja.Null())
+	r.Set("__calls", 0)
+	r.Set("__gets", 0)
 	r.Set("__opStart", in.opStart)
 	starts := make([]interface{}, len(in.starts))
 	for i, s := range in.starts {
@@ -449,7 +461,8 @@ func runBattery(r *goja.Runtime, in *batteryIn) *batteryResult {
 		for _, c := range name.s {
 			nm.WriteByte(byte(c))
 		}
-		res.ops = append(res.ops, opRec{name: nm.String(), calls: calls, data: d, text: d.String()})
+		gets, _ := e.at(3).isInt()
+		res.ops = append(res.ops, opRec{name: nm.String(), calls: calls, gets: gets, data: d, text: d.String()})
 	}
 	if probe != nil {
 		// the probe object itself was never matched against; make another one to see lazily created twins
